@@ -957,15 +957,67 @@ static void lib_free(void *p)
 /* ======================================================= fault allocator */
 static volatile long alloc_count, alloc_fail_at = -1;
 static volatile int alloc_armed, alloc_failed;
+static char fault_site[64] = "~";
+static size_t fault_size;
+#include <execinfo.h>
+#include <dlfcn.h>
+/* which module asked for the allocation that is made to fail: the first frame
+ * above jwt_malloc/drv_malloc that is not in this executable is "jansson" etc.;
+ * otherwise it is libjwt itself (statically linked into the driver) */
+#ifdef DRV_ASAN
+void __sanitizer_symbolize_pc(void *pc, const char *fmt, char *out_buf, size_t out_buf_size);
+#endif
+static char fault_stack[400] = "~";
+static void record_fault_site(size_t n)
+{
+	void *bt[16];
+	int d = backtrace(bt, 16);
+	fault_size = n;
+#ifdef DRV_ASAN
+	{
+		size_t off = 0;
+		fault_stack[0] = 0;
+		for (int i = 2; i < d && i < 12 && off + 60 < sizeof fault_stack; i++) {
+			char fn[128] = "";
+			__sanitizer_symbolize_pc((char *)bt[i] - 1, "%f", fn, sizeof fn);
+			if (!strcmp(fn, "jwt_malloc") || !strcmp(fn, "drv_malloc") || !fn[0]) continue;
+			if (!strcmp(fn, "run_op") || !strcmp(fn, "generic_cb") || !strcmp(fn, "map_op") || !strncmp(fn, "op_", 3) || !strcmp(fn, "apply_cfg")) break;
+			off += snprintf(fault_stack + off, sizeof fault_stack - off, "%s%s", off ? "<" : "", fn);
+		}
+	}
+#endif
+	snprintf(fault_site, sizeof fault_site, "libjwt");
+	for (int i = 1; i < d && i < 6; i++) {
+		Dl_info di;
+		if (dladdr(bt[i], &di) && di.dli_fname) {
+			const char *b = strrchr(di.dli_fname, '/');
+			b = b ? b + 1 : di.dli_fname;
+			if (strstr(b, "jansson")) { snprintf(fault_site, sizeof fault_site, "jansson"); return; }
+			if (strstr(b, "libcrypto") || strstr(b, "libssl")) { snprintf(fault_site, sizeof fault_site, "openssl"); return; }
+			if (strstr(b, "gnutls")) { snprintf(fault_site, sizeof fault_site, "gnutls"); return; }
+		}
+	}
+}
 static void *drv_malloc(size_t n)
 {
 	if (alloc_armed) {
 		long k = __sync_fetch_and_add(&alloc_count, 1);
-		if (k == alloc_fail_at) { alloc_failed = 1; return NULL; }
+		if (k == alloc_fail_at) {
+			int sv = alloc_armed;
+			alloc_armed = 0;
+			record_fault_site(n);
+			alloc_armed = sv;
+			alloc_failed = 1;
+			return NULL;
+		}
 	}
 	return malloc(n);
 }
 static void drv_free(void *p) { free(p); }
+static int fault_mode;
+/* arm the fault allocator exactly for the duration of one library call */
+#define LIB(expr) ({ int _sv = alloc_armed; alloc_armed = fault_mode; __typeof__(expr) _r = (expr); alloc_armed = _sv; _r; })
+#define LIBV(stmt) do { int _sv = alloc_armed; alloc_armed = fault_mode; stmt; alloc_armed = _sv; } while (0)
 
 /* ========================================================= value ops */
 /* Fill a jwt_value_t from a value descriptor.  Returns storage to free. */
@@ -1083,13 +1135,13 @@ static void map_op(json_t *ev, void *obj, int isjwt, const char *k, const char *
 	jwt_value_error_t ret;
 	if (!strcmp(k, "set")) {
 		fill_value(&jv, v, &vs, 1);
-		ret = s(obj, &jv);
+		ret = LIB(s(obj, &jv));
 		json_object_set_new(ev, "ret", json_string(verr_name(ret)));
 		json_object_set_new(ev, "verr", json_string(verr_name(jv.error)));
 		vstore_free(&vs);
 	} else if (!strcmp(k, "get")) {
 		fill_value(&jv, v, &vs, 0);
-		ret = g(obj, &jv);
+		ret = LIB(g(obj, &jv));
 		json_object_set_new(ev, "ret", json_string(verr_name(ret)));
 		json_object_set_new(ev, "verr", json_string(verr_name(jv.error)));
 		{ json_t *mo = NULL; json_object_set_new(ev, "got", project_got(&jv, ret, &mo)); json_object_set_new(ev, "gotmap", mo ? mo : json_array()); }
@@ -1097,7 +1149,7 @@ static void map_op(json_t *ev, void *obj, int isjwt, const char *k, const char *
 		vstore_free(&vs);
 	} else if (!strcmp(k, "del")) {
 		const char *name = jstr(v, "name", "~");
-		ret = d(obj, is_none(name) ? NULL : name);
+		ret = LIB(d(obj, is_none(name) ? NULL : name));
 		json_object_set_new(ev, "ret", json_string(verr_name(ret)));
 	} else die("map op %s", k);
 	if (wantmap) {
@@ -1116,14 +1168,20 @@ static int generic_cb(jwt_t *jwt, jwt_config_t *config)
 	int armed = alloc_armed;
 	if (!cx) return 0;
 	cx->ran++;
+	alloc_armed = 0;	/* bookkeeping below is the driver's, not the library's; LIB() re-arms per call */
 	json_array_foreach(cx->prog, i, st) {
 		const char *k = jstr(st, "k", "?");
 		json_t *r = json_object();
-		alloc_armed = 0;	/* bookkeeping below is the driver's, not the library's */
 		json_object_set_new(r, "k", json_string(k));
-		alloc_armed = armed;
 		if (!strcmp(k, "set") || !strcmp(k, "get") || !strcmp(k, "del")) {
-			map_op(r, jwt, 1, k, jstr(st, "which", "clm"), json_object_get(st, "v"), (int)jint(st, "map", 1));
+			map_op(r, jwt, 1, k, jstr(st, "which", "clm"), json_object_get(st, "v"), fault_mode ? 0 : (int)jint(st, "map", 1));
+			/* under fault injection the program behaves like a careful application:
+			 * a step that reports failure makes the callback return non-zero */
+			if (fault_mode && alloc_failed && strcmp(jstr(r, "ret", "NONE"), "NONE")) {
+				json_array_append_new(cx->res, r);
+				ret = 1;
+				break;
+			}
 		} else if (!strcmp(k, "key")) {
 			config->key = item_at(st);
 		} else if (!strcmp(k, "alg")) {
@@ -1149,6 +1207,7 @@ static int generic_cb(jwt_t *jwt, jwt_config_t *config)
 		} else die("cb step %s", k);
 		json_array_append_new(cx->res, r);
 	}
+	alloc_armed = armed;
 	return ret;
 }
 
@@ -1525,7 +1584,10 @@ static int obj_cb(jwt_t *jwt, jwt_config_t *config)
 	struct cbctx cx;
 	jwt_config_t c2 = *config;
 	int r;
+	int armed = alloc_armed;
+	alloc_armed = 0;
 	cx.prog = o->cb; cx.res = o->cbres ? o->cbres : (o->cbres = json_array()); cx.ran = 0;
+	alloc_armed = armed;
 	c2.ctx = &cx;
 	r = generic_cb(jwt, &c2);
 	config->key = c2.key; config->alg = c2.alg;
@@ -1539,8 +1601,8 @@ static void apply_cfg(struct cfgobj *o, int isb, json_t *op, json_t *ev)
 	const char *name = jstr(op, "op", "?");
 	int ret = 0;
 	if (!strcmp(name + 1, "SetKey")) {
-		ret = isb ? jwt_builder_setkey(o->obj, alg_enum(jstr(op, "alg", "none")), item_at(op))
-			  : jwt_checker_setkey(o->obj, alg_enum(jstr(op, "alg", "none")), item_at(op));
+		ret = LIB(isb ? jwt_builder_setkey(o->obj, alg_enum(jstr(op, "alg", "none")), item_at(op))
+			  : jwt_checker_setkey(o->obj, alg_enum(jstr(op, "alg", "none")), item_at(op)));
 		if (ev) json_object_set_new(ev, "ret", json_integer(ret));
 	} else if (!strcmp(name, "BIat")) {
 		ret = jwt_builder_enable_iat(o->obj, (int)jint(op, "enable", 1));
@@ -1554,7 +1616,7 @@ static void apply_cfg(struct cfgobj *o, int isb, json_t *op, json_t *ev)
 	} else if (!strcmp(name, "CClaimSet")) {
 		const char *v = jstr(op, "val", "~"); char *tmp = NULL;
 		if (!strncmp(v, "#hex:", 5)) { size_t n; tmp = (char *)hexdec(v + 5, &n); v = tmp; }
-		ret = jwt_checker_claim_set(o->obj, claim_enum(jstr(op, "claim", "iss")), is_none(v) ? NULL : v);
+		ret = LIB(jwt_checker_claim_set(o->obj, claim_enum(jstr(op, "claim", "iss")), is_none(v) ? NULL : v));
 		free(tmp);
 		if (ev) json_object_set_new(ev, "ret", json_integer(ret));
 	} else if (!strcmp(name, "CClaimDel")) {
@@ -1599,7 +1661,7 @@ static json_t *verify_res(struct cfgobj *o, const char *tok)
 	int ret;
 	if (o->cbres) { json_decref(o->cbres); o->cbres = NULL; }
 	o->cbran = 0;
-	ret = jwt_checker_verify(o->obj, tok);
+	ret = LIB(jwt_checker_verify(o->obj, tok));
 	json_object_set_new(r, "ret", json_integer(ret));
 	add_errmsg(r, o, 0);
 	json_object_set_new(r, "cbran", json_integer(o->cbran));
@@ -1612,7 +1674,7 @@ static json_t *generate_res(struct cfgobj *o, char **tokout)
 	char *tok;
 	if (o->cbres) { json_decref(o->cbres); o->cbres = NULL; }
 	o->cbran = 0;
-	tok = jwt_builder_generate(o->obj);
+	tok = LIB(jwt_builder_generate(o->obj));
 	json_object_set_new(r, "ret", json_string(tok ? "tok" : "null"));
 	add_errmsg(r, o, 1);
 	json_object_set_new(r, "cbran", json_integer(o->cbran));
@@ -1793,21 +1855,21 @@ static void op_load(json_t *op, json_t *ev)
 	if (iscreate && r->set) die("create on live ring");
 	if (strlen(doc) != len && (!strcmp(via, "load") || !strcmp(via, "create")))
 		json_object_set_new(ev, "nulbytes", json_integer(1));
-	if (!strcmp(via, "load")) ret = jwks_load(r->set, doc);
-	else if (!strcmp(via, "load_strn")) ret = jwks_load_strn(r->set, doc, len);
-	else if (!strcmp(via, "create")) ret = jwks_create(doc);
-	else if (!strcmp(via, "create_strn")) ret = jwks_create_strn(doc, len);
+	if (!strcmp(via, "load")) ret = LIB(jwks_load(r->set, doc));
+	else if (!strcmp(via, "load_strn")) ret = LIB(jwks_load_strn(r->set, doc, len));
+	else if (!strcmp(via, "create")) ret = LIB(jwks_create(doc));
+	else if (!strcmp(via, "create_strn")) ret = LIB(jwks_create_strn(doc, len));
 	else {
 		FILE *f;
 		snprintf(path, sizeof path, "%s/jwtdrv.%d.json", tmp_dir, (int)getpid());
 		f = fopen(path, "wb");
 		if (!f) die("tmp file %s", path);
 		fwrite(doc, 1, len, f); fclose(f);
-		if (!strcmp(via, "fromfile")) ret = jwks_load_fromfile(r->set, path);
-		else if (!strcmp(via, "create_fromfile")) ret = jwks_create_fromfile(path);
+		if (!strcmp(via, "fromfile")) ret = LIB(jwks_load_fromfile(r->set, path));
+		else if (!strcmp(via, "create_fromfile")) ret = LIB(jwks_create_fromfile(path));
 		else if (!strcmp(via, "fromfp") || !strcmp(via, "create_fromfp")) {
 			f = fopen(path, "rb");
-			ret = !strcmp(via, "fromfp") ? jwks_load_fromfp(r->set, f) : jwks_create_fromfp(f);
+			ret = LIB(!strcmp(via, "fromfp") ? jwks_load_fromfp(r->set, f) : jwks_create_fromfp(f));
 			fclose(f);
 		} else die("via %s", via);
 		unlink(path);
@@ -1869,9 +1931,9 @@ static void run_op(json_t *op)
 		struct ring *r = ring_of(op);
 		int ret;
 		json_object_set_new(ev, "flags_before", ring_flags(r));
-		if (!strcmp(name, "ItemFree")) ret = jwks_item_free(r->set, (size_t)jint(op, "index", 0));
-		else if (!strcmp(name, "FreeBad")) ret = jwks_item_free_bad(r->set);
-		else ret = jwks_item_free_all(r->set);
+		if (!strcmp(name, "ItemFree")) ret = LIB(jwks_item_free(r->set, (size_t)jint(op, "index", 0)));
+		else if (!strcmp(name, "FreeBad")) ret = LIB(jwks_item_free_bad(r->set));
+		else ret = LIB(jwks_item_free_all(r->set));
 		json_object_set_new(ev, "ret", json_integer(ret));
 		json_object_set_new(ev, "ids", ring_sync(r, NULL, NULL, 0));
 		json_object_set_new(ev, "count", json_integer((json_int_t)jwks_item_count(r->set)));
@@ -1898,7 +1960,7 @@ static void run_op(json_t *op)
 		int isb = name[0] == 'B';
 		struct cfgobj *o = cobj(op, isb);
 		if (o->obj) die("object exists");
-		o->obj = isb ? (void *)jwt_builder_new() : (void *)jwt_checker_new();
+		o->obj = LIB(isb ? (void *)jwt_builder_new() : (void *)jwt_checker_new());
 		o->cfg = json_array();
 		json_object_set_new(ev, "ok", json_integer(o->obj ? 1 : 0));
 		add_errmsg(ev, o, isb);
@@ -2041,6 +2103,11 @@ static void run_op(json_t *op)
 		json_object_set_new(ev, "alg", json_string(alg_name(a)));
 	} else
 		die("unknown op %s", name);
+	if (fault_mode && alloc_failed) {
+		json_object_set_new(ev, "fault_site", json_string(fault_site));
+		json_object_set_new(ev, "fault_size", json_integer((json_int_t)fault_size));
+		json_object_set_new(ev, "fault_stack", json_string(fault_stack));
+	}
 	emit(ev);
 	json_decref(ev);
 }
@@ -2077,10 +2144,79 @@ static void run_case(json_t *c, long idx)
 	emit(ev); json_decref(ev);
 }
 
+/* C17: run the case once counting the library's allocation requests, then once
+ * per request index k with that request failing, each in a forked child.
+ * Events: Case, <base events>, then per k: FaultRun{k,n}, <events up to and
+ * including the operation in which the fault fired>, FaultEnd{fired}. */
+static void run_case_fault(json_t *c, long idx)
+{
+	size_t i; json_t *op;
+	json_t *first = json_array_get(c, 0);
+	const char *id = first && json_is_string(first) ? json_string_value(first) : "?";
+	json_t *ev;
+	long n;
+	cur_case = id; cur_op = -1;
+	case_rng = seed * 0x9e3779b97f4a7c15ULL ^ fnv(id);
+	drv_now = 1700000000;
+	jwt_set_crypto_ops("openssl");
+	jwt_set_alloc(drv_malloc, drv_free);
+	ev = json_pack("{s:s,s:s,s:I}", "e", "Case", "id", id, "n", (json_int_t)idx);
+	emit(ev); json_decref(ev);
+	fault_mode = 1; alloc_fail_at = -1; alloc_count = 0; alloc_failed = 0;
+	alarm(call_timeout);
+	json_array_foreach(c, i, op) {
+		if (i == 0 && json_is_string(op)) continue;
+		cur_op = (int)i;
+		run_op(op);
+	}
+	alarm(0);
+	n = alloc_count;
+	fault_mode = 0;
+	free_all_objects();
+	for (long k = 0; k < n; k++) {
+		pid_t pid;
+		int st;
+		ev = json_pack("{s:s,s:I,s:I}", "e", "FaultRun", "k", (json_int_t)k, "n", (json_int_t)n);
+		emit(ev); json_decref(ev);
+		pid = fork();
+		if (pid == 0) {
+			uint64_t rs = seed * 0x9e3779b97f4a7c15ULL ^ fnv(id);
+			case_rng = rs; drv_now = 1700000000;
+			jwt_set_crypto_ops("openssl");
+			fault_mode = 1; alloc_fail_at = k; alloc_count = 0; alloc_failed = 0;
+			alarm(call_timeout);
+			json_array_foreach(c, i, op) {
+				if (i == 0 && json_is_string(op)) continue;
+				cur_op = (int)i;
+				run_op(op);
+				if (alloc_failed) break;
+			}
+			cur_op = 9999;
+			fault_mode = 0;
+			free_all_objects();
+			alarm(0);
+			ev = json_pack("{s:s,s:i}", "e", "FaultEnd", "fired", alloc_failed);
+			emit(ev); json_decref(ev);
+			_exit(0);
+		}
+		if (pid < 0) die("fork");
+		waitpid(pid, &st, 0);
+		if (!(WIFEXITED(st) && (WEXITSTATUS(st) == 0 || WEXITSTATUS(st) == 23 || WEXITSTATUS(st) == 4 || WEXITSTATUS(st) == 5))) {
+			char why[64];
+			snprintf(why, sizeof why, "child-died-%s%d", WIFSIGNALED(st) ? "sig" : "rc", WIFSIGNALED(st) ? WTERMSIG(st) : WEXITSTATUS(st));
+			emit_abort(why);
+		}
+	}
+	jwt_set_crypto_ops("openssl");
+	ev = json_pack("{s:s}", "e", "EndCase");
+	emit(ev); json_decref(ev);
+}
+
 int main(int argc, char **argv)
 {
 	const char *script = NULL, *out = NULL;
 	long skip = 0, limit = -1, idx = 0;
+	int do_fault = 0;
 	FILE *f;
 	char *line = NULL; size_t cap = 0; ssize_t n;
 	struct sigaction sa;
@@ -2095,6 +2231,7 @@ int main(int argc, char **argv)
 		else if (!strcmp(argv[i], "--limit") && i + 1 < argc) limit = atol(argv[++i]);
 		else if (!strcmp(argv[i], "--leak-every") && i + 1 < argc) leak_every = atoi(argv[++i]);
 		else if (!strcmp(argv[i], "--timeout") && i + 1 < argc) call_timeout = atoi(argv[++i]);
+		else if (!strcmp(argv[i], "--fault")) do_fault = 1;
 		else die("usage: jwtdrv --script F --out F [--keys D] [--seed N] [--skip N] [--limit N] [--leak-every N]");
 	}
 	if (!script) die("need --script");
@@ -2120,7 +2257,7 @@ int main(int argc, char **argv)
 		if (limit >= 0 && idx >= skip + limit) break;
 		c = json_loads(line, 0, &e);
 		if (!c || !json_is_array(c)) die("script line %ld: %s", idx, e.text);
-		run_case(c, idx);
+		if (do_fault) run_case_fault(c, idx); else run_case(c, idx);
 		json_decref(c);
 		idx++;
 	}
